@@ -14,6 +14,7 @@ import (
 	"path/filepath"
 	"regexp"
 	"strings"
+	"time"
 
 	"github.com/gardenbed/emerge/verif/ev"
 	"github.com/gardenbed/emerge/verif/rt"
@@ -54,7 +55,7 @@ func baselines() []string {
 var scenarioNames = [][]string{{"parse-one", "parse-two"}, {"parse-one", "parse-one"}, {"parse-one", "parse-one-dfa"}, {"parse-two", "pattern"},
 	{"parse-bad", "parse-one"}, {"parse-three-lalr", "parse-two"}, {"pattern-class", "pattern-negated-class"}, {"parse-one", "parse-two", "pattern"}, {"parse-one", "parse-one", "parse-bad"},
 	{"ast-negated-unicode", "ast-any-nondigit"}, {"ast-negated-unicode", "ast-negated-unicode"}, {"ast-classes", "ast-any-nondigit"},
-	{"nfa-any-nonword", "pattern-negated-class"}, {"parse-four-dfa", "ast-negated-unicode"}}
+	{"nfa-any-nonword", "pattern-negated-class"}, {"parse-four-dfa", "ast-negated-unicode"}, {"parse-five-dfa", "parse-six-dfa"}}
 
 var scenarios = func() [][]int {
 	var out [][]int
@@ -72,6 +73,10 @@ var scenarios = func() [][]int {
 	return out
 }()
 
+// maxOcc bounds the dynamic occurrences of one static scheduling point (per thread-independent count within one
+// execution) at which a preemption is tried.
+var maxOcc = 1 << 30
+
 func runScenario(r *ev.Run, base []string, threads []int, bound int, prefix []int, replay bool) {
 	var results []string
 	shard, nshards := r.ShardInfo()
@@ -80,7 +85,16 @@ func runScenario(r *ev.Run, base []string, threads []int, bound int, prefix []in
 		Bound:   bound,
 		Shard:   shard,
 		NShards: nshards,
-		Budget:  func() bool { return !r.Expired() },
+		ShardOffset: func() int {
+			o := 0
+			for _, t := range threads {
+				o = o*5 + t
+			}
+			return o
+		}(),
+		// a statement inside a loop passes its scheduling point many times: preempt at the first occurrences only
+		Filter: func(site string, occ int) bool { return occ < maxOcc },
+		Budget: func() bool { return !r.Expired() },
 		Run: func() string {
 			results = make([]string, len(threads))
 			bodies := make([]func(), len(threads))
@@ -282,7 +296,7 @@ func main() {
 		racePass(r, rounds)
 	}
 	if r.Fork(16) {
-		r.Set("rule", "part 1: 14 scenarios of 2-3 concurrent operations (two specifications built to collide on repeated multi-symbol sub-expressions, a pattern, a specification with errors, automaton and table construction); scheduling points = every statement of /repo touching a package-level variable; all interleavings with at most the preemption bound are enumerated, each thread's result compared with the same operation run alone in a fresh process; states = distinct outcomes, transitions = scheduling points passed; part 2: free-running -race pass; part 3: every sequential history up to the length bound over 13 operations")
+		r.Set("rule", "part 1: 15 scenarios of 2-3 concurrent operations (two specifications built to collide on repeated multi-symbol sub-expressions, a pattern, a specification with errors, automaton and table construction); scheduling points = every statement of /repo touching a package-level variable; all interleavings with at most the preemption bound, preempting at the first 6 (quick) / 24 (thorough) dynamic occurrences of every static point, are enumerated, each thread's result compared with the same operation run alone in a fresh process; states = distinct outcomes, transitions = scheduling points passed; part 2: free-running -race pass; part 3: every sequential history up to the length bound over 15 operations")
 		r.Set("evaluations", r.Get("executions")+r.Get("histories"))
 		r.Set("traces_validated_against_impl", r.Get("executions")+r.Get("histories"))
 		if r.Get("states") == 0 {
@@ -291,16 +305,29 @@ func main() {
 		r.Finish()
 	}
 	r.Set("exhaustive", true)
+	t0 := time.Now()
 	bound := 1
 	if !r.Quick() {
 		bound = 2
 	}
 	r.Set("bound_preemptions", bound)
+	maxOcc = 6
+	if !r.Quick() {
+		maxOcc = 24
+	}
+	r.Set("bound_occurrences_per_static_point", maxOcc)
 	for _, sc := range scenarios {
 		if r.Quick() && len(sc) > 2 && Ops[sc[2]].Name == "parse-bad" {
 			continue
 		}
+		st := time.Now()
 		runScenario(r, base, sc, bound, nil, false)
+		if os.Getenv("VERIF_C17_TRACE") != "" {
+			fmt.Fprintf(os.Stderr, "trace: worker %s scenario %v: %v\n", os.Getenv("VERIF_WORKER"), sc, time.Since(st))
+		}
+	}
+	if os.Getenv("VERIF_C17_TRACE") != "" {
+		fmt.Fprintf(os.Stderr, "trace: worker %s part 1 done after %v\n", os.Getenv("VERIF_WORKER"), time.Since(t0))
 	}
 	// part 3: histories
 	maxLen := 3
